@@ -17,7 +17,7 @@ pub fn start() -> impl Strategy<Value = Start> {
 }
 
 pub fn ring_cfg(max_sq_log2: u8) -> impl Strategy<Value = RingCfg> {
-    (0..=max_sq_log2, proptest::option::of(0u8..=6), start(), start(), any::<bool>(), proptest::bool::weighted(0.2), proptest::bool::weighted(0.15)).prop_map(|(sq_log2, cq_log2, sq_start, cq_start, alt_layout, defer_taskrun, sqpoll)| RingCfg {
+    (0..=max_sq_log2, proptest::option::of(0u8..=6), start(), start(), any::<bool>(), proptest::bool::weighted(0.2), proptest::bool::weighted(0.15), proptest::bool::weighted(0.25)).prop_map(|(sq_log2, cq_log2, sq_start, cq_start, alt_layout, defer_taskrun, sqpoll, direct)| RingCfg {
         sq_log2,
         cq_log2,
         sq_start,
@@ -25,7 +25,9 @@ pub fn ring_cfg(max_sq_log2: u8) -> impl Strategy<Value = RingCfg> {
         // A kernel thread consuming the queue (driven by the history's
         // kernel-thread steps).
         sqpoll,
-        direct_slots: 0,
+        // The history's descriptor is a direct descriptor (every submission
+        // through it carries IOSQE_FIXED_FILE and its index).
+        direct_slots: if direct && !sqpoll { 4 } else { 0 },
         alt_layout,
         defer_taskrun: defer_taskrun && !sqpoll,
     })
@@ -33,13 +35,13 @@ pub fn ring_cfg(max_sq_log2: u8) -> impl Strategy<Value = RingCfg> {
 
 /// Ring configurations including large queues (mappings of several pages).
 pub fn ring_cfg_wide() -> impl Strategy<Value = RingCfg> {
-    (prop_oneof![6 => 0u8..=3, 2 => 4u8..=6, 2 => 7u8..=8], proptest::option::of(prop_oneof![4 => 0u8..=6, 2 => 7u8..=10]), start(), start(), any::<bool>(), proptest::bool::weighted(0.2)).prop_map(|(sq_log2, cq_log2, sq_start, cq_start, alt_layout, defer_taskrun)| RingCfg {
+    (prop_oneof![6 => 0u8..=3, 2 => 4u8..=6, 2 => 7u8..=8], proptest::option::of(prop_oneof![4 => 0u8..=6, 2 => 7u8..=10]), start(), start(), any::<bool>(), proptest::bool::weighted(0.2), proptest::bool::weighted(0.2)).prop_map(|(sq_log2, cq_log2, sq_start, cq_start, alt_layout, defer_taskrun, direct)| RingCfg {
         sq_log2,
         cq_log2,
         sq_start,
         cq_start,
         sqpoll: false,
-        direct_slots: 0,
+        direct_slots: if direct { 4 } else { 0 },
         alt_layout,
         defer_taskrun,
     })
